@@ -226,9 +226,10 @@ func classify(flags map[string]string, symptom, err, mismatch string, cmdsOfSeco
 	switch {
 	case flags["nestA"] == "1" || flags["nestB"] == "1":
 		return "nested_address_groups"
-	case flags["sgchg"] == "1" && (err == "delete-referenced-service" || mismatch == "srv" || onlySGrp):
+	case flags["sgchg"] == "1" && (err == "delete-referenced-service" || err == "" && (mismatch == "srv" || onlySGrp)):
 		return "service_group_same_name_members_differ"
-	case flags["mixed"] == "1" && (err == "dangling-reference" || err == "delete-referenced-group" || mismatch == "src" || mismatch == "dst" || onlyLists):
+	case flags["mixed"] == "1" && (err == "dangling-reference" || err == "delete-referenced-group" ||
+		err == "" && (mismatch == "src" || mismatch == "dst" || onlyLists)):
 		return "list_mixing_group_with_other_members"
 	case flags["uniq"] == "1" && (err == "set-existing-rule" || symptom == "not_equivalent" || err == "move-before-itself" ||
 		strings.HasPrefix(err, "dangling") || strings.HasPrefix(err, "delete-referenced")):
@@ -249,6 +250,8 @@ func propOf(symptom string) string {
 		return "C07"
 	case "resume_refused", "resume_not_equivalent", "resume_second_plan_not_empty":
 		return "C10"
+	case "refused_not_converged":
+		return "C03"
 	}
 	return "C03"
 }
@@ -395,10 +398,15 @@ func cmdKinds(res *Result, cmds []string) {
 	}
 }
 
-func (c *checker) runCase(in caseInput, deep bool) {
+// runCase returns the device's vsys as decoded and, per targeted vsys that converged, the state reached.
+func (c *checker) runCase(in caseInput, deep bool) (devVsys []panos.VerifVsys, reached map[string]panos.VerifVsys) {
 	res := c.res
 	c.n++
+	reached = map[string]panos.VerifVsys{}
 	p := planReal(in.Dev, in.Spoc, in.V6, in.Raw)
+	if p.A != nil {
+		devVsys = p.A.Vsys
+	}
 	per, flags, ok := c.tie("plan", in, p)
 	canon := in.Dev + "\x00" + in.Spoc + "\x00" + in.V6 + "\x00" + in.Raw
 	res.Count("mode:" + in.Mode)
@@ -455,7 +463,12 @@ func (c *checker) runCase(in caseInput, deep bool) {
 			pred := classify(fl, "request_refused", r.Err, "", nil)
 			c.fail("request_refused", pred, fmt.Sprintf("request %d of %d for vsys %s is refused by the strict device (%s): %s",
 				r.Accepted+1, len(cmds), name, r.Err, cmds[r.Accepted]), in, map[string]any{"error": r.Err})
-			// convergence is judged on what a lenient device would do only if all was accepted
+			// the approve stops here: the vsys stays as it is after the accepted requests
+			if r.Equiv != "1" {
+				c.fail("refused_not_converged", classify(fl, "refused_not_converged", r.Err, r.Mismatch, nil),
+					fmt.Sprintf("approve of vsys %s stops at request %d of %d (%s: %s) and leaves a vsys that is not equivalent to the target (first difference: %s)",
+						name, r.Accepted+1, len(cmds), r.Err, cmds[r.Accepted], r.Mismatch), in, map[string]any{"error": r.Err})
+			}
 			res.Count("oracle:refused")
 			if !deep {
 				continue
@@ -465,6 +478,7 @@ func (c *checker) runCase(in caseInput, deep bool) {
 				"after executing all requests the vsys "+name+" is not equivalent to the target (first difference: "+r.Mismatch+")", in, nil)
 		} else {
 			res.Count("oracle:converged")
+			reached[name] = r.Tree
 			// second plan on the reached state
 			d2, s2 := renderPair(r.Tree, b)
 			p2 := planReal(d2, s2, "", "")
@@ -483,6 +497,7 @@ func (c *checker) runCase(in caseInput, deep bool) {
 			c.resume(in, name, a, b, cmds, fl)
 		}
 	}
+	return
 }
 
 func (c *checker) resume(in caseInput, name string, a, b panos.VerifVsys, cmds []string, fl map[string]string) {
@@ -679,7 +694,18 @@ func run(ctx *Ctx, prop string) *Result {
 		rng := ctx.Rng.Fork()
 		in := genCase(rng)
 		in.UseDrcMain = i%10 == 0
-		c.runCase(in, prop == "C10" || i%4 == 0)
+		deep := prop == "C10" || i%4 == 0
+		devVsys, reached := c.runCase(in, deep)
+		// every third case is continued: the device is now what the approve left behind (renamed
+		// rules r1-1 next to r1, renamed / reused / left-over groups), the target changes again
+		for depth := 0; i%3 == 0 && depth < 2 && len(reached) > 0; depth++ {
+			next, ok := chainCase(in, devVsys, reached)
+			if !ok {
+				break
+			}
+			in = next
+			devVsys, reached = c.runCase(in, deep)
+		}
 	}
 	return res
 }
